@@ -129,7 +129,14 @@ def extract_iter(
                         types.GeneratorType,
                         types.AsyncGeneratorType,
                     ),
+                ) or current is not (
+                    getattr(origin, "gi_frame", None)
+                    or getattr(origin, "cr_frame", None)
+                    or getattr(origin, "ag_frame", None)
                 ):
+                    # Only the frame that belongs to the generator/coroutine
+                    # has it as its origin; frames of functions that it is
+                    # currently calling (if it's running) do not
                     origin = None
                 current = Frame(pyframe=current, origin=origin)
             if isinstance(current, Frame):
